@@ -172,18 +172,59 @@ func (x *clExec) clean(op clOp) *vfutil.Failure {
 		}
 	}
 
-	// expectation for retention
-	cut, why := retentionCut(m.Segs, maxBytes, maxMsgs, ageOn, ttl)
 	before := m.all()
 	beforeByOff := map[int64]*mMsg{}
 	for _, b := range before {
 		beforeByOff[b.Off] = b
 	}
-	survSegs := m.Segs[cut:]
 	hw := m.HW
-
-	// expectation for compaction (on the post-retention layout)
 	must := map[int64]bool{}
+	// Appends that happen while the clean is running: the retention cleaner
+	// calls computeTTL with no lock held, after Clean() took its snapshot of the
+	// segments - the hook appends there, deterministically.
+	var during []*mMsg
+	var duringErr error
+	if ageOn && len(op.Msgs) > 0 && !m.Readonly {
+		during = x.b.build(op.Msgs)
+		x.noteEpochs(during)
+	}
+	saved := computeTTL
+	hooked := false
+	computeTTL = func(time.Duration) int64 {
+		if len(during) > 0 && !hooked {
+			hooked = true
+			_, duringErr = x.l.Append(toProto(during))
+		}
+		return ttl
+	}
+	err := x.l.Clean()
+	computeTTL = saved
+	if duringErr != nil {
+		return vfutil.Failf(x.sig("append-error"), "step %d: Append during Clean() failed: %v", x.step, duringErr)
+	}
+	if len(during) > 0 && !hooked {
+		during = nil // a single segment is never cleaned: the hook did not run
+	}
+	if len(during) > 0 {
+		rolled := m.appendMsgs(during)
+		x.o.Label("append-during-clean")
+		if rolled {
+			x.sawRoll = true
+			x.o.Label("roll-during-clean")
+		}
+		for _, d := range during {
+			beforeByOff[d.Off] = d
+			must[d.Off] = true
+		}
+		before = append(before, during...)
+	}
+	// expectation for retention: the cleaner works on the segments that existed
+	// when Clean() started (the last of them may have grown by now); segments
+	// rolled meanwhile are kept as they are
+	snapSegs := m.Segs[:n]
+	cut, why := retentionCut(snapSegs, maxBytes, maxMsgs, ageOn, ttl)
+	survSegs := snapSegs[cut:]
+	// expectation for compaction (on the post-retention snapshot layout)
 	compacting := op.Compact && len(survSegs) > 1
 	if compacting {
 		latest := map[string]int64{}
@@ -202,11 +243,6 @@ func (x *clExec) clean(op clOp) *vfutil.Failure {
 			}
 		}
 	}
-
-	saved := computeTTL
-	computeTTL = func(time.Duration) int64 { return ttl }
-	err := x.l.Clean()
-	computeTTL = saved
 	if err != nil {
 		return vfutil.Failf(x.sig("clean-error"), "step %d: Clean() failed: %v", x.step, err)
 	}
@@ -300,7 +336,8 @@ func (x *clExec) clean(op clOp) *vfutil.Failure {
 	// update the model to what survived
 	removed := 0
 	var newSegs []*mSeg
-	for i, s := range survSegs {
+	allSurv := m.Segs[cut:] // the snapshot's survivors plus segments rolled during the clean
+	for i, s := range allSurv {
 		var keep []*mMsg
 		var bytes int64
 		for _, mm := range s.Msgs {
@@ -311,7 +348,7 @@ func (x *clExec) clean(op clOp) *vfutil.Failure {
 				removed++
 			}
 		}
-		if len(keep) == 0 && i != len(survSegs)-1 {
+		if len(keep) == 0 && i < len(survSegs)-1 {
 			x.o.Label("segment-emptied")
 			continue
 		}
